@@ -140,6 +140,10 @@ def cases(tier, seed):
                 out.append({'kind': 'late', 'seed': case_seed('C05', seed, 'late', prog.name, rec), 'params': {'prog': prog.name, 'rec': rec}})
     for i in range(12 if tier == 'quick' else 200):
         out.append({'kind': 'preamble', 'seed': case_seed('C05', seed, 'preamble', i), 'params': {'rec': 'ndarray', 'form': i % 4}})
+    for i in range(8 if tier == 'quick' else 80):
+        out.append({'kind': 'npconst', 'seed': case_seed('C05', seed, 'npconst', i), 'params': {'form': i}})
+    for i in range(3 if tier == 'quick' else 30):
+        out.append({'kind': 'constbuf', 'seed': case_seed('C05', seed, 'constbuf', i), 'params': {}})
     for i in range(18 if tier == 'quick' else 300):
         out.append({'kind': 'selfconst', 'seed': case_seed('C05', seed, 'selfconst', i), 'params': {'rec': ['ndarray', 'utpm11', 'utpmDP'][i % 3], 'form': (i // 3) % 6}})
     for i in range(12 if tier == 'quick' else 60):
@@ -147,7 +151,7 @@ def cases(tier, seed):
     return out
 
 
-REQUIRED = ['recording-value', 'replay:ndarray', 'replay:utpm', 'replay:complex', 'replay:same-object', 'trace-spec', 'trace-off', 'second-graph', 'late-independent', 'interleaved-recording', 'replay:constant-is-recording-object', 'preamble']
+REQUIRED = ['recording-value', 'replay:ndarray', 'replay:utpm', 'replay:complex', 'replay:same-object', 'trace-spec', 'trace-off', 'second-graph', 'late-independent', 'interleaved-recording', 'replay:constant-is-recording-object', 'preamble', 'numpy-scalar-constant']
 
 
 def _same(a, b, tol=TOL):
@@ -195,6 +199,10 @@ def run_case(ctx, case):
         return _selfconst(ctx, p, rng)
     if case['kind'] == 'preamble':
         return _preamble(ctx, p, rng)
+    if case['kind'] == 'constbuf':
+        return _constbuf(ctx, p, rng)
+    if case['kind'] == 'npconst':
+        return _npconst(ctx, p, rng)
     if case['kind'] == 'single':
         prog = progs.by_name(p['prog']); f = prog.f; ins = prog.ins; label = prog.name
     else:
@@ -396,6 +404,71 @@ def _preamble(ctx, p, rng):
         if not ok:
             ctx.violation('preamble:replay:value', {'form': form, 'rec': p['rec'], 'replay': [kind, D, P], 'err': err}); return
         ctx.ok('preamble', ('preamble', form, p['rec'], kind, D, P), exact=exact)
+
+
+def _npconst(ctx, p, rng):
+    """constants that are NumPy scalars or zero-dimensional arrays, with traced data of a narrower type (float32 / int32 arrays):
+    NumPy scalars take part in type promotion (x_float32 + numpy.float64(1e-4) is float64), Python scalars do not - tracing must not
+    turn one into the other"""
+    dt = [np.float32, np.int32, np.float32, np.complex64][p['form'] % 4]
+    x0 = (np.round(gen.base_sampler('R')(rng, (3,)) * 100)).astype(dt) if dt is np.int32 else gen.base_sampler('R')(rng, (3,)).astype(dt)
+    c1, c2, c3 = np.float64(1e-4), np.int64(100000), np.array(0.1)
+    f = [lambda x: (x + c1) - x, lambda x: x * c2 + c2, lambda x: x * c3 - c1, lambda x: (c1 * x) / c3 + c2][p['form'] % 4]
+    try:
+        cg = CGraph()
+        fx = Function(x0.copy())
+        y = f(fx)
+        cg.trace_off()
+        cg.independentFunctionList = [fx]; cg.dependentFunctionList = [y]
+    except Exception:
+        ctx.skip('not-traceable:npconst'); return
+    want = f(x0.copy())
+    got = np.asarray(y.x)
+    if got.dtype != np.asarray(want).dtype or not np.array_equal(got, want):
+        ctx.violation('numpy-scalar-constant:recording-value', {'data_dtype': np.dtype(dt).name, 'form': p['form'] % 4, 'got_dtype': str(got.dtype), 'want_dtype': str(np.asarray(want).dtype)}); return
+    for _ in range(2):
+        x1 = (np.round(gen.base_sampler('R')(rng, (3,)) * 100)).astype(dt) if dt is np.int32 else gen.base_sampler('R')(rng, (3,)).astype(dt)
+        try:
+            got = np.asarray(cg.function([x1.copy()])[0])
+        except Exception as e:
+            ctx.violation('numpy-scalar-constant:replay:raises', {'error': str(e)[:200]}); return
+        want = np.asarray(f(x1.copy()))
+        if got.dtype != want.dtype or not np.array_equal(got, want):
+            ctx.violation('numpy-scalar-constant:replay:value', {'data_dtype': np.dtype(dt).name, 'form': p['form'] % 4, 'got_dtype': str(got.dtype), 'want_dtype': str(want.dtype)}); return
+    ctx.ok('numpy-scalar-constant', ('npconst', p['form'] % 4))
+
+
+def _constbuf(ctx, p, rng):
+    """a work buffer created as a node around a constant array, `acc = Function(numpy.zeros(n))` (the idiom of the library's own
+    tracer tests), read before it is overwritten: every replay starts from the zeros the program starts from"""
+    x0 = gen.base_sampler('R')(rng, (3,))
+
+    def body(acc, x):
+        acc[0] = acc[0] + x[0]              # read-modify-write
+        acc[1] = acc[0] * x[1]
+        acc[2] = acc[2] - x[2] * acc[1]
+        acc[0] = acc[0] + acc[1]
+        return acc * 1.0
+    try:
+        cg = CGraph()
+        x = Function(x0.copy())
+        y = body(Function(np.zeros(3)), x)
+        cg.trace_off()
+        cg.independentFunctionList = [x]; cg.dependentFunctionList = [y]
+    except Exception:
+        ctx.skip('not-traceable:constbuf'); return
+    if not np.array_equal(np.asarray(y.x), body(np.zeros(3), x0.copy())):
+        ctx.violation('constant-node-buffer:recording-value', {}); return
+    for rep in range(3):
+        x1 = x0.copy() if rep == 0 else gen.base_sampler('R')(rng, (3,))
+        try:
+            got = np.asarray(cg.function([x1.copy()])[0])
+        except Exception as e:
+            ctx.violation('constant-node-buffer:replay:raises', {'error': str(e)[:200]}); return
+        want = body(np.zeros(3), x1.copy())
+        if not np.allclose(got, want, rtol=1e-13, atol=1e-13):
+            ctx.violation('constant-node-buffer:replay:value', {'replay': rep, 'got': got.tolist(), 'want': want.tolist()}); return
+    ctx.ok('constant-node-buffer', ('constbuf',))
 
 
 def _selfconst(ctx, p, rng):
